@@ -327,6 +327,12 @@ class isoparser(object):
         if not 0 < day < 8:     # Range is 1-7
             raise ValueError('Invalid weekday: {}'.format(day))
 
+        # Only long ISO years have a week 53 (28 December is always in the
+        # last week); in other years those days are week 1 of the next year
+        if week == 53 and date(year, 12, 28).isocalendar()[1] != 53:
+            raise ValueError('Invalid week: {} for ISO year {}'.format(week,
+                                                                       year))
+
         # Get week 1 for the specific year:
         jan_4 = date(year, 1, 4)   # Week 1 always has January 4th in it
         week_1 = jan_4 - timedelta(days=jan_4.isocalendar()[2] - 1)
